@@ -128,6 +128,20 @@ fn run_line(line_no: u64, line: &Value, w: &mut TraceWriter, summ: &mut Vec<Valu
             }
             2
         }
+        "equiv" => {
+            // the same behaviour through the convenience calls and through their explicit form
+            let c = Cfg { json: cfgv.clone() };
+            let calls2: Vec<Value> = line.get("calls2").and_then(|c| c.as_array()).cloned().unwrap_or_default();
+            let a = exec::run_instance(base, &c, &calls, &opts);
+            let b = exec::run_instance(base + 1, &c, &calls2, &opts);
+            summ.push(summarise(line_no, line, &a));
+            emit(w, &a);
+            emit(w, &b);
+            if !a.crashed && !b.crashed {
+                w.write(&pairs::pair_same(base, "alias", "convenience", &a, &b, None));
+            }
+            2
+        }
         "meta" => {
             let c = Cfg { json: cfgv.clone() };
             let cn = Cfg { json: without_field(&cfgv, "meta") };
